@@ -1,6 +1,7 @@
 package props
 
 import (
+	"strings"
 	"bytes"
 	"fmt"
 
@@ -239,6 +240,18 @@ func runC05(c *h.Ctx) {
 				tr.Free()
 				return
 			}
+			// the marshalled bytes belong to the caller: marshalling something else afterwards must not touch them
+			heldCopy := append([]byte{}, out...)
+			other := generic.PathNode{Node: generic.NewNodeString(strings.Repeat("\xa5", 16+len(out)))}
+			if _, err := other.Marshal(o); err != nil {
+				cs.Viol("dom:Marshal:scalar-root-error", "err", err)
+			}
+			if !bytes.Equal(out, heldCopy) {
+				cs.Viol("dom:Marshal:result-changed-by-later-marshal"+reuse, "was", heldCopy, "now", out)
+				tr.Free()
+				return
+			}
+			cs.Cover("marshal_result_held_intact")
 			// MarshalIntoBuffer appends after a canary prefix
 			canary := []byte{0xde, 0xad, 0xbe, 0xef}
 			buf := append(make([]byte, 0, 8+cs.R.Intn(64)), canary...)
